@@ -242,6 +242,12 @@ class Explorer:
         c = re.sub(r"::<.*>$", "", callee.strip())
         if c in self.funcs:
             return self.funcs[c]
+        m = re.fullmatch(r"<(?:Self|dyn [\w:]+) as ([\w:]+)>::(\w+)", c)
+        if m:
+            # default (provided) trait method called on Self / a trait object
+            n = m.group(1).split("::")[-1] + "::" + m.group(2)
+            if n in self.funcs:
+                return self.funcs[n]
         parts = c.split("::")
         meth = parts[-1]
         cands = [f for n, f in self.funcs.items() if n.split("::")[-1] == meth and "{closure" not in n]
@@ -324,6 +330,9 @@ class Explorer:
                         v = self.obj_read(st, v.obj, v.path, pointee)
                     else:
                         v = _ObjView(v.obj, v.path)
+                elif isinstance(v, _ObjView):
+                    # a pointer stored inside an object: its pointee is a sub-object of that place
+                    v = _ObjView(v.obj, v.path + ("*",))
                 else:
                     v = Opaque("deref of non-ref")
             elif s[0] == "field":
@@ -349,7 +358,9 @@ class Explorer:
             return o[path]
         if ty is None:
             return _ObjView(obj, path)
-        v = fresh_of_type(ty, f"obj{obj if not isinstance(obj, tuple) else obj[1] + '.' + str(obj[2])}." + ".".join(map(str, path)))
+        oname = "_".join(str(x) for x in obj[:3]) if isinstance(obj, tuple) else str(obj)
+        oname = re.sub(r"[^A-Za-z0-9_.]", "_", oname)[:40]
+        v = fresh_of_type(ty, f"obj{oname}." + ".".join(map(str, path)))
         if isinstance(v, Opaque):
             if ty.strip().startswith("&"):
                 v = Ref(("fld", next(_fresh)), ())
@@ -541,6 +552,9 @@ class Explorer:
         m = re.fullmatch(r"const (.*) as (\w+) \((\w+)\)", t)
         if m:
             return self.rvalue(st, frame, "const " + m.group(1))
+        m = re.fullmatch(r"(copy|move) (.*) as (.+) \((Transmute|PtrToPtr|PointerCoercion.*|Unsize)\)", t, re.S)
+        if m:
+            return self.read_place(st, frame, m.group(2))
         if t.startswith(("copy ", "move ", "const ")):
             return self.operand(st, frame, t)
         m = re.fullmatch(r"(\w+)\((.*)\)", t, re.S)
@@ -576,6 +590,9 @@ class Explorer:
             root, steps = self.parse_place(m.group(1))
             base = frame.locals.get(root)
             if steps and steps[0][0] == "deref" and isinstance(base, Ref):
+                path = base.path + tuple(s[1] for s in steps[1:] if s[0] == "field")
+                return Ref(base.obj, path)
+            if steps and steps[0][0] == "deref" and isinstance(base, _ObjView):
                 path = base.path + tuple(s[1] for s in steps[1:] if s[0] == "field")
                 return Ref(base.obj, path)
             if not steps:
@@ -788,6 +805,9 @@ class Explorer:
                     lt = z3.ULT(a.e, b.e) if not a.signed else a.e < b.e
                     e = z3.If(lt, a.e, b.e) if short == "min" else z3.If(lt, b.e, a.e)
                     rv = BV(e, a.width, a.signed, a.taint or b.taint)
+                elif short in ("get_record", "get_record_mut") and len(args) == 1 and isinstance(args[0], Ref):
+                    # pure accessor of the trait object: same receiver -> same record object
+                    rv = Ref(("record-of", args[0].obj, args[0].path), ())
                 elif short == "current_time_millis":
                     rv = BV(z3.BitVec(f"now!{len(st.clock)}!{next(_fresh)}", 64), 64)
                     if st.clock:
@@ -830,6 +850,8 @@ class Explorer:
                     if dest and re.fullmatch(r"_\d+", dest.strip()):
                         dty = fr.func.local_types.get(dest.strip())
                     rv = fresh_of_type(dty, "ret." + short, True) if dty else Opaque("ret " + short)
+                    if isinstance(rv, Opaque) and dty and dty.strip().startswith("&"):
+                        rv = Ref(("ret", short, next(_fresh)), ())
                 if ret_block is None:
                     self._finish(st, "diverge:" + cname)
                     return
